@@ -34,7 +34,7 @@ Definition ct_state_eqb (a b : ct_state) : bool :=
   String.eqb (ct_processor a) (ct_processor b) &&
   String.eqb (ct_occupancy a) (ct_occupancy b) && String.eqb (ct_occ_bins a) (ct_occ_bins b) &&
   String.eqb (ct_unocc_bins a) (ct_unocc_bins b) && String.eqb (ct_segment_type a) (ct_segment_type b) &&
-  list_eqb (fun p q : ukey * json => ukey_eqb (fst p) (fst q) && json_eqb (snd p) (snd q)) (ct_unc a) (ct_unc b) &&
+  list_eqb (fun p q : ukey * uentry => ukey_eqb (fst p) (fst q) && json_eqb (uentry_doc (snd p)) (uentry_doc (snd q))) (ct_unc a) (ct_unc b) &&
   jlist_eqb (warns_payload (ct_warnings a)) (warns_payload (ct_warnings b)) &&
   json_eqb (ct_metadata a) (ct_metadata b) && json_eqb (ct_settings a) (ct_settings b) &&
   json_eqb (JObj (metrics_payload (ct_totals a))) (JObj (metrics_payload (ct_totals b))) &&
